@@ -975,6 +975,16 @@ fn structural(
     acc: &mut Acc,
 ) {
     budget.tried += 1;
+    // a wrong search result found while checking a non-search property (closure, ranking,
+    // statistics) is reported under the search property it violates
+    let prop: &str = match prop {
+        "C07" | "C13" | "C15" | "C10" => match b.cfg.kind {
+            Kind::Std => "C01",
+            Kind::LL => "C03",
+            Kind::LF => "C04",
+        },
+        p => p,
+    };
     let is_char = b.cfg.variant == Variant::Char;
     // tails: nothing, every label of the patterns (and 00/01/ff), pairs of them, and the way down
     // to the nearest pattern end below every depth-1..2 node
